@@ -243,7 +243,16 @@ func c14ExecMember(sc c14Member) string {
 	}
 	time.Sleep(25 * time.Millisecond)
 	ms.Close()
-	time.Sleep(8 * time.Millisecond)
+	// the heart-beat and monitor loops notice the stop after their current sleep: wait until the node has been quiet
+	// for a while, so that nothing of this case reaches into the next one (shared node)
+	for t0, last := time.Now(), -1; time.Since(t0) < 3*time.Second; {
+		n := len(e.c.Log())
+		if n == last {
+			break
+		}
+		last = n
+		time.Sleep(25 * time.Millisecond)
+	}
 	n := 0
 	for _, en := range e.c.Log() {
 		if isKVWrite(en.Cmd) {
